@@ -18,6 +18,14 @@ namespace UpfVerif.Core
 
 abbrev Seid := BitVec 64
 
+/-- a PFCP Node ID as the UPF keys its associations by (the string `NodeID()` returns): an IPv4 address — written as the
+    peer that owns it in the abstract world —, an IPv6 literal, or an FQDN -/
+inductive NodeId
+  | v4 (peer : String)
+  | v6 (text : String)
+  | fqdn (text : String)
+deriving DecidableEq, Repr, Inhabited
+
 inductive Kind | pdr | far | qer | urr | bar
 deriving DecidableEq, Repr, Inhabited
 
@@ -71,7 +79,7 @@ deriving DecidableEq, Repr, Inhabited
 
 /-- `RemoteNode`: id string, address the association came from, set of local SEIDs -/
 structure RNode where
-  id   : String
+  id   : NodeId
   addr : String
   sess : List Seid := []
 deriving DecidableEq, Repr, Inhabited
@@ -139,7 +147,7 @@ structure State where
   cfg    : Cfg := {}
   lnode  : LNode := {}
   nodes  : List RNode := []                     -- arena of RemoteNode objects (handles are indices)
-  rnodes : List (String × Nat) := []            -- `rnodes map[string]*RemoteNode`
+  rnodes : List (NodeId × Nat) := []            -- `rnodes map[string]*RemoteNode`
   rx     : List ((String × BitVec 24) × Rx) := []   -- key "addr-seq" (request seq is parsed from the wire: 24 bit)
   tx     : List ((String × BitVec 24) × Tx) := []   -- key "addr-seq": the sequence number that goes on the wire
   txSeq  : BitVec 32 := 0
@@ -435,29 +443,36 @@ def Sess.close (s : Sess) (c : Ctx) : Sess × Ctx × List Report :=
       ((s', acc.2 ++ r), c')) pdrKeys.length pdrKeys (s4, r3) c4
   ({ s5 with q := [] }, c5, r5)
 
-/-- `Sess.URRSeq` + the emission loop shared by the three carriers: reports for unknown URRs are skipped,
-    the counter is taken exactly when an IE is emitted, a `removed` entry is dropped after its report
-    (`dropRemoved` is false for Session Report Requests, report.go:108-120). -/
+/-- one iteration of the emission loop shared by the three carriers (`Sess.URRSeq` + `IEsWithinSess…`): a report
+    for a URR the session does not know is skipped; otherwise the IE takes the URR's counter, the counter is
+    incremented, and — in the two response carriers (`dropRemoved`) — the bookkeeping of a URR marked `removed` is
+    dropped after its report (session.go:324-326, 390-392). -/
+def emitOne (s : Sess) (r : Report) (extra : BitVec 32) (dropRemoved : Bool) : Sess × Option UsarIE :=
+  match alGet s.urrs r.urr with
+  | none => (s, none)
+  | some info =>
+    let trig := r.trig ||| extra
+    let startF := BitVec.ofNat 32 Gen.report.USAR_TRIG_START
+    let stopF := BitVec.ofNat 32 Gen.report.USAR_TRIG_STOPT
+    let macarF := BitVec.ofNat 32 Gen.report.USAR_TRIG_MACAR
+    let noTimes := (trig &&& startF != 0) || (trig &&& stopF != 0) || (trig &&& macarF != 0)
+    let volFlags : Byte := if info.mnop then 0x3f#8 else 0x07#8
+    let ie : UsarIE := {
+      urr := r.urr, seqn := info.seqn, trig := trig,
+      times := if noTimes then none else some (r.meas.getD 6 0, r.meas.getD 7 0),
+      vol := if info.volum then some (volFlags, r.meas.take 6) else none,
+      dur := if info.durat then some (r.meas.getD 8 0) else none }
+    let urrs' := if dropRemoved && info.removed then alDel s.urrs r.urr
+                 else alSet s.urrs r.urr { info with seqn := info.seqn + 1 }
+    ({ s with urrs := urrs' }, some ie)
+
+/-- the emission loop over a batch of reports, in order -/
 def emitUsars (s : Sess) (rs : List Report) (extra : BitVec 32) (dropRemoved : Bool) : Sess × List UsarIE :=
-  rs.foldl (fun (acc : Sess × List UsarIE) r =>
-    let (s, ies) := acc
-    match alGet s.urrs r.urr with
-    | none => (s, ies)
-    | some info =>
-      let trig := r.trig ||| extra
-      let startF := BitVec.ofNat 32 Gen.report.USAR_TRIG_START
-      let stopF := BitVec.ofNat 32 Gen.report.USAR_TRIG_STOPT
-      let macarF := BitVec.ofNat 32 Gen.report.USAR_TRIG_MACAR
-      let noTimes := (trig &&& startF != 0) || (trig &&& stopF != 0) || (trig &&& macarF != 0)
-      let volFlags : Byte := if info.mnop then 0x3f#8 else 0x07#8
-      let ie : UsarIE := {
-        urr := r.urr, seqn := info.seqn, trig := trig,
-        times := if noTimes then none else some (r.meas.getD 6 0, r.meas.getD 7 0),
-        vol := if info.volum then some (volFlags, r.meas.take 6) else none,
-        dur := if info.durat then some (r.meas.getD 8 0) else none }
-      let info' := { info with seqn := info.seqn + 1 }
-      let urrs' := if dropRemoved && info.removed then alDel s.urrs r.urr else alSet s.urrs r.urr info'
-      ({ s with urrs := urrs' }, ies ++ [ie])) (s, [])
+  match rs with
+  | [] => (s, [])
+  | r :: rest =>
+    ((emitUsars (emitOne s r extra dropRemoved).1 rest extra dropRemoved).1,
+     (emitOne s r extra dropRemoved).2.toList ++ (emitUsars (emitOne s r extra dropRemoved).1 rest extra dropRemoved).2)
 
 /-! ### LocalNode (node.go:612-690) -/
 
@@ -495,7 +510,7 @@ def LNode.remoteSess (n : LNode) (nodes : List RNode) (rSeid : Seid) (addr : Str
 
 /-! ### the server -/
 
-def State.nodeOf (st : State) (id : String) : Option Nat := alGet st.rnodes id
+def State.nodeOf (st : State) (id : NodeId) : Option Nat := alGet st.rnodes id
 
 def State.setSess (st : State) (s : Sess) : State := { st with lnode := st.lnode.setSess s }
 
@@ -540,7 +555,7 @@ def State.sendReq (st : State) (addr : String) (m : Msg) (c : Ctx) : State × Ct
 
 /-- abstract requests, after `message.Parse` -/
 structure EstReq where
-  nodeID : Option String
+  nodeID : Option NodeId
   cpSeid : Option Seid
   far : List RuleIE := []
   qer : List RuleIE := []
@@ -551,7 +566,7 @@ deriving Repr, Inhabited
 
 structure ModReq where
   seid : Seid
-  nodeID : Option String := none
+  nodeID : Option NodeId := none
   cfar : List RuleIE := []
   cqer : List RuleIE := []
   curr : List RuleIE := []
@@ -572,7 +587,7 @@ deriving Repr, Inhabited
 
 inductive Req
   | heartbeat
-  | assoc (nodeID : Option String)
+  | assoc (nodeID : Option NodeId)
   | est (r : EstReq)
   | mod (r : ModReq)
   | del (seid : Seid)
@@ -625,19 +640,19 @@ def handleEst (st : State) (addr : String) (seq : BitVec 24) (r : EstReq) (_env 
         (st1.setSess s5).sendRsp addr rsp c5
 
 /-- `UpdateNodeID` (pfcp.go:248-254) -/
-def State.updateNodeID (st : State) (h : Nat) (newId : String) : State :=
+def State.updateNodeID (st : State) (h : Nat) (newId : NodeId) : State :=
   let old := (st.nodes.getD h default).id
   let st1 := { st with rnodes := alDel st.rnodes old }
   let st2 := st1.modNode h fun n => { n with id := newId }
   { st2 with rnodes := alSet st2.rnodes newId h }
 
 /-- a Node ID in a Modification Request: a new SMF takes the session's node over (session.go:157-170) -/
-def State.takeover (st : State) (nodeID : Option String) (h : Nat) : State :=
+def State.takeover (st : State) (nodeID : Option NodeId) (h : Nat) : State :=
   match nodeID with
   | some nid => st.updateNodeID h nid
   | none => st
 
-@[simp] theorem State.takeover_lnode (st : State) (o : Option String) (h : Nat) : (st.takeover o h).lnode = st.lnode := by
+@[simp] theorem State.takeover_lnode (st : State) (o : Option NodeId) (h : Nat) : (st.takeover o h).lnode = st.lnode := by
   cases o <;> rfl
 
 /-- the rule loops of handleSessionModificationRequest, in the handler's order (session.go:172-301) -/
@@ -682,7 +697,7 @@ def handleDel (st : State) (addr : String) (seq : BitVec 24) (x : Seid) (env : E
     st1.sendRsp addr { kind := .delRsp, seq := seq, seid := some s0.remoteID, cause := some causeAccepted, usars := ies } c1
 
 /-- handleAssociationSetupRequest -/
-def handleAssoc (st : State) (addr : String) (seq : BitVec 24) (nodeID : Option String) (env : Env) (c : Ctx) :
+def handleAssoc (st : State) (addr : String) (seq : BitVec 24) (nodeID : Option NodeId) (env : Env) (c : Ctx) :
     State × Ctx :=
   match nodeID with
   | none => (st, c)
@@ -722,11 +737,12 @@ def State.popBufPkt (st : State) (x : Seid) (pdr : Nat) : State × Option Bytes 
     | some [] => (st, none)
     | some (p :: rest) => (st.setSess { s with q := alSet s.q pdr rest }, some p)
 
-/-- where `ServeReport` sends: `net.ResolveUDPAddr("udp4", "<node id>:8805")`. In the abstract world an IPv4 node id is
-    written `4:<peer>` and resolves to that peer's address; IPv6 literals (`6:…`) and FQDNs (`f:…`, no resolver) do not
-    resolve as udp4, and the report is dropped (known finding, C10). -/
-def reportDest (nodeId : String) : Option String :=
-  if nodeId.startsWith "4:" then some (nodeId.drop 2).toString else none
+/-- where `ServeReport` sends: `net.ResolveUDPAddr("udp4", "<node id>:8805")`. An IPv4 node id resolves to the
+    address of the peer that owns it; IPv6 literals and FQDNs (no resolver) do not resolve as udp4, and the report
+    is dropped (known finding, C10). -/
+def reportDest : NodeId → Option String
+  | .v4 peer => some peer
+  | _ => none
 
 def buffF : BitVec 16 := BitVec.ofNat 16 Gen.report.APPLY_ACT_BUFF
 def nocpF : BitVec 16 := BitVec.ofNat 16 Gen.report.APPLY_ACT_NOCP
